@@ -62,6 +62,10 @@ class Exec(ExecBase):
         for val, f in ((True, c), (False, z3.Not(c))):
             st2 = st.assume(f).decide(f"{tag}={'T' if val else 'F'}")
             if smt.quick_feasible(st2.pc):
+                nr = getattr(cond, "narrow", None)
+                if val and nr is not None and nr[0] in st2.env and isinstance(st2.env[nr[0]], VRef) \
+                        and st2.env[nr[0]].term.eq(nr[1]):
+                    st2 = st2.bind(nr[0], VRef(nr[1], nr[2], self))
                 yield val, st2
             else:
                 self.infeasible_paths += 1
@@ -617,6 +621,13 @@ class Exec(ExecBase):
             for args, st2 in self.ev_list(node.args, st1):
                 for kwvals, st3 in self.ev_list([k.value for k in node.keywords], st2):
                     kwargs = {k.arg: v for k, v in zip(node.keywords, kwvals)}
+                    if isinstance(fv, VFunc) and fv.pyobj is isinstance and isinstance(node.args[0], ast.Name) \
+                            and isinstance(args[0], VRef) and isinstance(args[1], VClass) and args[1].pycls is not None \
+                            and args[1].pycls in self.ct.lo and self.ct.is_sub(args[1].pycls, args[0].cls):
+                        for r, st4 in self.call(fv, args, kwargs, st3, node):
+                            r.narrow = (node.args[0].id, args[0].term, args[1].pycls)  # static narrowing on the true branch
+                            yield r, st4
+                        continue
                     yield from self.call(fv, args, kwargs, st3, node)
 
     def call(self, fv: V, args: List[V], kwargs: Dict[str, V], st: State, node: ast.AST) -> Iterator[Tuple[V, State]]:
@@ -775,6 +786,10 @@ class Exec(ExecBase):
     def apply_contract(self, c: Contract, fi: FuncInfo, args: List[V], kwargs: Dict[str, V], st: State, node: ast.AST
                        ) -> Iterator[Tuple[V, State]]:
         env, st = self.bind_args(fi, args, kwargs, st)
+        for pn, pv in list(env.items()):
+            pty = c.params.get(pn)
+            if isinstance(pv, VUnion) and (pty is None or pty.kind not in ("union", "refu")):
+                env[pn] = self.narrow(pv, st)
         ns: Dict[str, Any] = dict(env)
         for g in c.ghost:
             if g in st.ghost:
